@@ -17,15 +17,21 @@ theorem fieldsOf_filter (buf : Bytes) (elems : List Elem) :
       exact ih
 
 /-- the keep-alive decision does not depend on elements of other kinds -/
-theorem keepAlive_header_kind_only (lvl : Int) (pat : List Nat) (buf : Bytes) (rq : Rq) :
-    (mkCfg lvl pat).keepAlive buf rq =
-      (mkCfg lvl pat).keepAlive buf { rq with elems := rq.elems.filter (fun e => e.kind == Http.kindHeader) } := by
+theorem keepAlive_header_kind_only (lvl : Int) (pat : List (Option Nat)) (f : HRes) (l : Bool) (buf : Bytes) (rq : Rq) :
+    (mkCfg lvl pat f l).keepAlive buf rq =
+      (mkCfg lvl pat f l).keepAlive buf { rq with elems := rq.elems.filter (fun e => e.kind == Http.kindHeader) } := by
   simp only [mkCfg]
   rw [← fieldsOf_filter]
 
-theorem frame_header_kind_only (lvl : Int) (pat : List Nat) (buf : Bytes) (rq : Rq) :
-    (mkCfg lvl pat).frame buf rq =
-      (mkCfg lvl pat).frame buf { rq with elems := rq.elems.filter (fun e => e.kind == Http.kindHeader) } := by
+theorem frame_header_kind_only (lvl : Int) (pat : List (Option Nat)) (f : HRes) (l : Bool) (buf : Bytes) (rq : Rq) :
+    (mkCfg lvl pat f l).frame buf rq =
+      (mkCfg lvl pat f l).frame buf { rq with elems := rq.elems.filter (fun e => e.kind == Http.kindHeader) } := by
+  simp only [mkCfg]
+  rw [← fieldsOf_filter]
+
+theorem expect100_header_kind_only (lvl : Int) (pat : List (Option Nat)) (f : HRes) (l : Bool) (buf : Bytes) (rq : Rq) :
+    (mkCfg lvl pat f l).expect100 buf rq =
+      (mkCfg lvl pat f l).expect100 buf { rq with elems := rq.elems.filter (fun e => e.kind == Http.kindHeader) } := by
   simp only [mkCfg]
   rw [← fieldsOf_filter]
 
